@@ -470,3 +470,87 @@ def m6(ctx):
 def m7(ctx):
     from .c16 import opaque_name_obligations
     return opaque_name_obligations(ctx)
+
+
+@rule("C17", "M8", floor=5, kind="S",
+      desc="the answer for one href is about that href only: the multiget loop, the traversal and the store listings yield "
+           "values of the current iteration (same obligations as C01/H4 on those loops) - a content type left over from "
+           "the previous member turns a non-calendar object into one that is answered with data")
+def m8(ctx):
+    from .common import per_item_obligations
+    return per_item_obligations(ctx, ["xandikos.davcommon.MultiGetReporter.report", "xandikos.store.git.GitStore.iter_with_etag",
+                                      "xandikos.store.vdir.VdirStore.iter_with_etag", "xandikos.webdav.traverse_resource",
+                                      "xandikos.web.StoreBasedCollection.members"])
+
+
+@rule("C17", "M9", floor=1, kind="S",
+      desc="a response without properties shows its status: Status.aselement renders the propstat branch only for a "
+           "non-empty propstat (truthiness), so that `Status(href, '404 Not Found', propstat=[])` - what multiget "
+           "yields for an unresolved href - carries the 404")
+def m9(ctx):
+    f = ctx.own_method("xandikos.webdav.Status", "aselement")
+    cfg = ctx.cfg(f)
+    du = DefUse(cfg)
+    obs = []
+    st_nodes = [n for n in cfg.stmt_nodes() if any(isinstance(x, ast.Constant) and x.value == "{DAV:}status" for e in n.exprs() for x in ast.walk(e))]
+    if not st_nodes:
+        raise AnalysisError("Status.aselement: {DAV:}status element not found")
+    for n in st_nodes:
+        blocked = []
+        for t, pol in cfg.required_conditions(n):
+            # reaching the status element requires `propstat is None` (rather than 'propstat is empty')
+            if isinstance(t, ast.Compare) and len(t.ops) == 1 and isinstance(t.ops[0], (ast.Is, ast.IsNot)) and "propstat" in src(t.left):
+                blocked.append(src(t))
+        obs.append(ctx.ob(not blocked, f.qualname, where(f, n), "status shown for an empty propstat", "propstat branch taken on truthiness",
+                          "the {DAV:}status element is reached only when `%s` decides that propstat is None: a response built with an empty "
+                          "propstat list (the 404 of multiget) is rendered without any status" % (blocked[0] if blocked else "")))
+    return obs
+
+
+def href_pairing_obligations(ctx):
+    """A resource is reported under the href that was mapped to its path: in _get_resources_by_hrefs the href yielded with a
+    resource of backend.get_resources(...) is looked up by that resource's own path (`table[relpath]`) - not taken by
+    position from another sequence, which shifts every pair once one href could not be mapped."""
+    gr = ctx.func("xandikos.webdav._get_resources_by_hrefs")
+    cfg = ctx.cfg(gr)
+    du = DefUse(cfg)
+    obs = []
+    loops = loops_over(cfg, "get_resources", du)
+    if not loops:
+        # the resources are consumed some other way: zipped / enumerated together with another sequence
+        wrapped = [n for n in cfg.nodes if n.kind == "for" and any(isinstance(x, ast.Call) and (dotted(x.func) or "").endswith("get_resources")
+                                                                   for x in ast.walk(n.ast.iter))]
+        if wrapped:
+            return [ctx.bad(gr.qualname, where(gr, wrapped[0]), "href of a resolved resource is looked up by its path",
+                            "`for %s in %s`: the resources that get_resources() returns are combined with another sequence by position, not looked up "
+                            "by their path: after one unmappable (or repeated) href every answer carries the ETag and data of a different resource"
+                            % (src(wrapped[0].ast.target)[:40], src(wrapped[0].ast.iter)[:60]))]
+        raise AnalysisError("_get_resources_by_hrefs: loop over backend.get_resources(...) not found")
+    from .common import loop_body_nodes, as_tuple
+    for lp in loops:
+        body = loop_body_nodes(cfg, lp)
+        for y in [n for n in _yields(cfg) if n.id in body]:
+            elts = as_tuple(ctx, gr, y, y.ast.value.value) if y.ast.value.value is not None else None
+            if not elts or len(elts) != 2:
+                continue
+            ho = origins(du, y, elts[0])
+            ro = origins(du, y, elts[1])
+            res_ok = bool(ro) and all(o.kind == "elem" and o.node is lp for o in ro)
+            looked_up = bool(ho) and all(
+                o.kind == "expr" and isinstance(o.leaf, (ast.Subscript, ast.Call)) and not o.path
+                and any(oo.kind == "elem" and oo.node is lp for x in ([o.leaf.slice] if isinstance(o.leaf, ast.Subscript) else list(o.leaf.args))
+                        for oo in origins(du, o.node, x)) for o in ho)
+            obs.append(ctx.ob(res_ok and looked_up, gr.qualname, where(gr, y), "href of a resolved resource is looked up by its path",
+                              "yield (table[relpath], resource)",
+                              "`%s`: the href reported with a resource is not the one that was mapped to the resource's path (it is paired by "
+                              "position): after one unmappable href every answer carries the ETag and data of a different resource" % src(y.ast.value)[:60]))
+    if not obs:
+        raise AnalysisError("_get_resources_by_hrefs: no (href, resource) yield inside the get_resources loop")
+    return obs
+
+
+@rule("C17", "M10", floor=1, kind="S",
+      desc="the answer for an href carries the resource of that href: (href, resource) pairs are formed by looking the "
+           "resource's path up in the path -> href table, not by position")
+def m10(ctx):
+    return href_pairing_obligations(ctx)
